@@ -61,6 +61,13 @@ def rich_index(rng: Any, shape: tuple[int, ...]) -> tuple[tuple[Any, ...], str]:
             vals = rng.integers(-n, n, size=adv_shape)
             if rng.integers(4) == 0:
                 vals = np.abs(vals) % n  # non-negative only
+            elif rng.integers(4) == 0:
+                # sorted arrays: contiguous ranges and look-alikes with a repeated entry and a gap ([0, 0, 2])
+                vals = np.sort(np.abs(vals) % n, axis=-1)
+                if rng.integers(2) and vals.shape[-1] <= n:
+                    vals = np.broadcast_to(np.arange(vals.shape[-1]) + int(rng.integers(0, n - vals.shape[-1] + 1)), vals.shape).copy()
+                    if rng.integers(2) and vals.shape[-1] >= 3:
+                        vals[..., 1] = vals[..., 0]            # same first/last/length as the range, not a range
             items.append(jnp.asarray(vals, dtype=jnp.int32 if rng.integers(2) else jnp.int16))
         else:
             m = rng.integers(0, 2, size=(n,)).astype(bool)
@@ -227,7 +234,18 @@ def case_index(rng: Any, ctx: Ctx, index: int) -> None:
         LOG.violation('C12', 'C12.out_structure', 'IndexOperator.out_structure/not-numpy', 'declared output differs from x[indices]',
                       index=form, got=dense.struct_str(op.out_structure()), expected=dense.struct_str(out_ref))
     x = gen.rand_input(rng, s)
-    op.mv(x)                                              # monitored by the reference-model monitor
+    y = op.mv(x)                                          # monitored by the reference-model monitor
+    if skind == 'stokes':
+        # the container's own indexing x[index] selects the same elements of every component as the operator does
+        def getitem() -> None:
+            direct = x[idx if len(idx) > 1 else idx[0]]
+            LOG.evaluated('C12.stokes-getitem')
+            same = type(direct) is type(x) and all(
+                np.shape(a) == np.shape(b) and np.array_equal(np.asarray(a), np.asarray(b)) for a, b in zip(jax.tree.leaves(direct), jax.tree.leaves(y)))
+            if not same or len(jax.tree.leaves(direct)) != len(jax.tree.leaves(y)):
+                LOG.violation('C12', 'C12.stokes-getitem', 'StokesPyTree.__getitem__/differs-from-IndexOperator',
+                              'x[index] of a Stokes container differs from IndexOperator(index)(x)', index=form, s=dense.struct_str(s))
+        guarded('C12.stokes-getitem', getitem)
     if dense.size_of(op.out_structure()) == 0:
         return
     guarded('C12.transpose', lambda: check_transpose(op, rng, 'C12.transpose'))
